@@ -21,7 +21,7 @@ RULE = ("response frames built from every valid kind (state, capabilities, prope
         "shorter than the header), every count byte, size byte and capability value byte set to 0..255, the header length byte inconsistent with the real length, valid frames of every kind whose data bytes are all 0x00 / 0xFF / 0x99 (e.g. the all-zero energy response) arriving after real data on the same client, well-formed property responses whose records combine every property id the library knows (decoded or not) or unknown ids with result bytes (success / failure flag) and sizes 0..14, a well-formed header-only or full frame followed by 1..48 trailing bytes (padding or the start of another frame), every response id 0..255 with random "
         "bodies of length 0..60 and frame types 0..7, oversized frames, and fields pointing past the end; delivered alone or in "
         "mixes [bad*, good, bad*] as the answer to every request of an operation (refresh, apply with/without pending property "
-        "updates, get_capabilities first/additional page, toggle_display, start_self_clean, and short sequences of them under the same device). Oracle: the operation returns "
+        "updates, get_capabilities first/additional page, toggle_display, start_self_clean, and short sequences of them under the same device); optionally the unit hangs up behind every answer (FIN / RST, seen by the client's event loop after or in the same pass as the answer: the client's state must equal the state reached when the connection stays open), optionally the host process raises warnings attributed to the library's modules as errors (python -W error). Oracle: the operation returns "
         "without raising; for mixes whose bad members are undecodable or irrelevant by specification, the client's state after "
         "the operation equals the state after the same operation with only the good frames. Non-trivial: the bad frame passes "
         "Frame.validate and (where applicable) the body check. Distinct by (frames, operation).")
@@ -169,6 +169,7 @@ def _run(case: dict, with_bad: bool):
             recs = m.cap_pages[0][0]
             m.cap_pages = [(recs[:4], b"\x01\x00"), (recs[4:], b"")]
         dev = SimDevice(loop, version=2, device_id=3, ac=m)
+        dev.hangup = case.get("hangup")      # the unit hangs up behind every answer (FIN / RST, seen after or in the same loop pass as the answer)
         net.listen("10.0.0.9", 6444, dev)
         ac = AC(ip="10.0.0.9", port=6444, device_id=3)
         if case.get("prepared", True):
@@ -187,7 +188,9 @@ def _run(case: dict, with_bad: bool):
         res["online"], res["supported"] = ac.online, ac.supported
         ac._lan._disconnect()
 
-    vloop.run(main, net)
+    from .. import harness
+    with harness.strict_warnings(bool(case.get("strict"))):
+        vloop.run(main, net)
     return res
 
 
@@ -210,6 +213,12 @@ def check_case(case: dict):
         if clean["snap"] != res["snap"]:
             diff = {k: (clean["snap"][k], res["snap"][k]) for k in clean["snap"] if clean["snap"][k] != res["snap"][k]}
             return ("good-frames-lost", f"{case['op']}: state with bad frames mixed in differs from state with the good frames only: {diff}")
+        if case.get("hangup"):
+            # ... and a unit that hangs up behind its answers leaves the client in the same state as one that keeps the connection open
+            base = _run(dict(case, hangup=None), False)
+            if "exc" not in base and base["snap"] != res["snap"]:
+                diff = {k: (base["snap"][k], res["snap"][k]) for k in base["snap"] if base["snap"][k] != res["snap"][k]}
+                return ("good-frames-lost/hangup", f"{case['op']}: state differs from the state reached when the unit keeps the connection open (hang-up {case['hangup']}): {diff}")
     return None
 
 
@@ -338,6 +347,10 @@ def run(ctx) -> None:
                         continue
                     case = {"op": op, "good": arrangement != "alone", "pre": [spec] if arrangement != "after" else [],
                             "post": [spec] if arrangement == "after" else [], "two_pages": two_pages}
+                    if n % 5 == 0:
+                        case["hangup"] = ["fin", "rst", "fin_same", "rst_same"][(n // 5) % 4]
+                    if n % 4 == 1:
+                        case["strict"] = True
                     ctx.check(case, lambda c: _run_one(ctx, c))
     ctx.sweep("bad frame catalogue x operations x arrangements", n, not ctx.quick)
 
@@ -361,7 +374,8 @@ def run(ctx) -> None:
         st.fixed_dictionaries({"t": st.just("lenbyte"), "kind": st.sampled_from(RK.KINDS), "k": st.integers(0, 70), "val": st.just(0)}),
     )
     cases = st.fixed_dictionaries({"op": st.sampled_from(OPS), "good": st.booleans(), "pre": st.lists(spec, max_size=2),
-                                   "post": st.lists(spec, max_size=2), "two_pages": st.booleans(), "prepared": st.booleans()})
+                                   "post": st.lists(spec, max_size=2), "two_pages": st.booleans(), "prepared": st.booleans()},
+                                  optional={"hangup": st.sampled_from(["fin", "rst", "fin_same", "rst_same"]), "strict": st.booleans()})
     ctx.hyp("mixes", cases, lambda c: _run_one(ctx, c), ctx.n(2500, 480000))
 
     # coverage-guided search (atheris/libFuzzer) over the same structured input space; an additional search,
